@@ -196,7 +196,7 @@ var prBackends = []string{"mem", "badger", "pathbadger"}
 type prTree struct {
 	id    int
 	m     [][2]bstr
-	depth int // internal nodes on the longest path
+	depth int         // internal nodes on the longest path
 	root  node.Root   // root of the tree without database (version 0)
 	roots []node.Root // root per backend (same hash, own version)
 	trees []mkvs.Tree
@@ -1015,35 +1015,35 @@ func prCap(t *prTree, class int, salt int) ([2]int, string) {
 // ---- the replay ----
 
 type prStats struct {
-	mu              sync.Mutex
-	cases           int64
-	honest          int64
-	mutants         int64
-	byteVariants    int64
-	verifications   int64
-	remoteReads     int64
-	remoteTrees     int64
-	accepted        int64 // accepted mutants (structural)
-	acceptedBytes   int64
-	inapplicable    int64
-	builderDrift    int64
-	verdictDrift    int64
-	shapeDrift      int64
-	detDrift        int64
-	remoteDrift     int64
-	remoteCompared  int64
-	backendDiffer   int64
-	panics          int64
-	byClass         map[string]int64
-	byKind          map[string]int64
-	byKindAccepted  map[string]int64
-	byVersion       map[string]int64
-	byOp            map[string]int64
-	driftSamples    []map[string]any
-	verdictByKind   map[string]int64
-	sampleCases     []json.RawMessage
-	remoteErrTexts  map[string]int64
-	verifyErrTexts  map[string]int64
+	mu             sync.Mutex
+	cases          int64
+	honest         int64
+	mutants        int64
+	byteVariants   int64
+	verifications  int64
+	remoteReads    int64
+	remoteTrees    int64
+	accepted       int64 // accepted mutants (structural)
+	acceptedBytes  int64
+	inapplicable   int64
+	builderDrift   int64
+	verdictDrift   int64
+	shapeDrift     int64
+	detDrift       int64
+	remoteDrift    int64
+	remoteCompared int64
+	backendDiffer  int64
+	panics         int64
+	byClass        map[string]int64
+	byKind         map[string]int64
+	byKindAccepted map[string]int64
+	byVersion      map[string]int64
+	byOp           map[string]int64
+	driftSamples   []map[string]any
+	verdictByKind  map[string]int64
+	sampleCases    []json.RawMessage
+	remoteErrTexts map[string]int64
+	verifyErrTexts map[string]int64
 }
 
 type prRecorder struct {
